@@ -154,13 +154,22 @@ fn run_(tier: &str, seed: u64) -> Sink {
             let res = fmt(&src, Config::default(), None, false);
             let ms = t0.elapsed().as_millis();
             let (calls, exprs) = stylua_lib::verif::counters();
-            let calls = calls.max(exprs / 4);
             if let Outcome::Panic(p) = &res {
                 sink.v("C07", &format!("panic:nest-{}", name), json!({"input": src, "panic": p}));
             }
             if name == "chain" || name == "call" {
-                sink.q(format!("cost {} {}", name, d), format!("{}", calls));
+                // the model counts entries of format_function_call along the single-line path (the
+                // self-call structure); measured with an unbounded column width so that no over-width
+                // retry is mixed in (at the default width the 127 bytes of depth 13 no longer fit)
+                let mut wide = Config::default();
+                wide.column_width = usize::MAX;
+                stylua_lib::verif::reset();
+                let _ = fmt(&src, wide, None, false);
+                let (wcalls, _) = stylua_lib::verif::counters();
+                sink.q(format!("cost {} {}", name, d), format!("{}", wcalls));
             }
+            // for the growth probe either counter will do (families without calls only move the second)
+            let calls = calls.max(exprs / 4);
             // time out of proportion: more than 2 s for < 300 bytes
             history.push(calls.max(1));
             // deterministic form of "time out of proportion": the number of formatter entries doubles
